@@ -56,10 +56,12 @@ Proof. revert vs; induction xs as [|x xs IH]; intros [|v vs] Hl; cbn in *; try d
 
 Lemma sumf_pos phi xs : xs <> [] -> (forall x, 0 < phi x) -> 0 < sumf phi xs.
 Proof.
-  intros Hne Hp. destruct xs as [|x xs]; [contradiction|]. cbn.
+  intros Hne Hp. destruct xs as [|x xs]; [contradiction|].
+  change (0 < phi x + sumf phi xs).
   assert (0 <= sumf phi xs).
-  { clear Hne. induction xs as [|y ys IH]; cbn; [lra|]. specialize (Hp y). lra. }
-  specialize (Hp x). lra.
+  { clear Hne. induction xs as [|y ys IH]; [cbn; lra|].
+    change (0 <= phi y + sumf phi ys). pose proof (Hp y). lra. }
+  pose proof (Hp x). lra.
 Qed.
 
 Lemma rdot_map_scale c (g vs : list R) : rdot (map (fun d => c * d) g) vs = c * rdot g vs.
@@ -95,4 +97,140 @@ Proof.
   replace (map (fun x => exp (rho * x) / S) xs) with (map (fun d => / S * d) (map (fun x => exp (rho * x)) xs))
     by (rewrite map_map; apply map_ext; intros; unfold Rdiv; ring).
   rewrite !rdot_map_scale. field. split; [lra | exact Hr].
+Qed.
+
+(* ------------------------------------------------------------------ P-norm (positive data) *)
+Lemma rpow_minus1 x p : 0 < x -> rpow x (p - 1) = rpow x p / x.
+Proof.
+  intros Hx. unfold rpow. replace ((p - 1) * ln x) with (p * ln x + - ln x) by ring.
+  rewrite exp_plus, exp_Ropp, exp_ln by exact Hx. reflexivity.
+Qed.
+
+Lemma rpow_derive x p : 0 < x -> is_derive (fun y => rpow y p) x (p * rpow x (p - 1)).
+Proof.
+  intros Hx. rewrite rpow_minus1 by exact Hx. unfold rpow.
+  auto_derive; [exact Hx | field; lra].
+Qed.
+
+Lemma rpow_pos x p : 0 < rpow x p.
+Proof. apply exp_pos. Qed.
+
+Theorem pnorm_derive p xs vs : p <> 0 -> xs <> [] -> length xs = length vs -> List.Forall (fun x => 0 < x) xs ->
+  is_derive (fun t => pnorm p (line xs vs t)) 0 (rdot (pnorm_grad p xs) vs).
+Proof.
+  intros Hp Hne Hl Hpos. unfold pnorm.
+  set (S := sumf (fun y => rpow y p) xs).
+  assert (HS : 0 < S) by (apply sumf_pos; [exact Hne | intros; apply rpow_pos]).
+  apply (is_derive_ext (fun t => rpow (lsum (fun x => rpow x p) (combine xs vs) t) (/ p))).
+  { intros t. rewrite sumf_line. reflexivity. }
+  assert (Hs : is_derive (lsum (fun x => rpow x p) (combine xs vs)) 0
+                 (dsum (fun x => p * rpow x (p - 1)) (combine xs vs))).
+  { apply is_derive_lsum. intros [x v] Hin. cbn [fst]. apply rpow_derive.
+    apply in_combine_l in Hin. rewrite Forall_forall in Hpos. apply Hpos. exact Hin. }
+  assert (H0 : lsum (fun x => rpow x p) (combine xs vs) 0 = S).
+  { rewrite lsum_0, map_fst_combine by exact Hl. reflexivity. }
+  pose proof (is_derive_comp (fun y => rpow y (/ p)) (lsum (fun x => rpow x p) (combine xs vs)) 0
+                (/ p * rpow S (/ p - 1)) _
+                ltac:(rewrite H0; apply rpow_derive; exact HS) Hs) as Hd.
+  unfold scal in Hd; cbn in Hd; unfold mult in Hd; cbn in Hd.
+  replace (rdot (pnorm_grad p xs) vs)
+    with (dsum (fun x => p * rpow x (p - 1)) (combine xs vs) * (/ p * rpow S (/ p - 1))); [exact Hd|].
+  rewrite dsum_dot by exact Hl. unfold pnorm_grad. fold S.
+  replace (map (fun x => p * rpow x (p - 1)) xs) with (map (fun d => p * d) (map (fun x => rpow x (p - 1)) xs))
+    by (rewrite map_map; reflexivity).
+  replace (map (fun x => rpow S (/ p - 1) * rpow x (p - 1)) xs)
+    with (map (fun d => rpow S (/ p - 1) * d) (map (fun x => rpow x (p - 1)) xs))
+    by (rewrite map_map; reflexivity).
+  rewrite !rdot_map_scale. field. exact Hp.
+Qed.
+
+(* ------------------------------------------------------------------ soft min/max *)
+Lemma rdot_soft (D c alpha : R) xs vs : length xs = length vs -> D <> 0 ->
+  rdot (map (fun x => exp (alpha * x) / D * (1 + alpha * (x - c))) xs) vs
+  = / D * ((1 - alpha * c) * rdot (map (fun x => exp (alpha * x)) xs) vs
+           + alpha * rdot (map (fun x => x * exp (alpha * x)) xs) vs).
+Proof.
+  intros Hl HD. unfold rdot. revert vs Hl.
+  induction xs as [|x xs IH]; intros [|v vs] Hl; cbn in *; try discriminate; [field; exact HD|].
+  rewrite IH by (injection Hl; auto). field. exact HD.
+Qed.
+
+Theorem softmm_derive alpha xs vs : xs <> [] -> length xs = length vs ->
+  is_derive (fun t => softmm alpha (line xs vs t)) 0 (rdot (softmm_grad alpha xs) vs).
+Proof.
+  intros Hne Hl. unfold softmm.
+  set (N := sumf (fun x => x * exp (alpha * x)) xs).
+  set (D := sumf (fun x => exp (alpha * x)) xs).
+  assert (HD : 0 < D) by (apply sumf_pos; [exact Hne | intros; apply exp_pos]).
+  apply (is_derive_ext (fun t => lsum (fun x => x * exp (alpha * x)) (combine xs vs) t
+                                 / lsum (fun x => exp (alpha * x)) (combine xs vs) t)).
+  { intros t. rewrite !sumf_line. reflexivity. }
+  assert (HN' : is_derive (lsum (fun x => x * exp (alpha * x)) (combine xs vs)) 0
+                 (dsum (fun x => exp (alpha * x) + x * (alpha * exp (alpha * x))) (combine xs vs))).
+  { apply is_derive_lsum. intros p _. auto_derive; [exact I | ring]. }
+  assert (HD' : is_derive (lsum (fun x => exp (alpha * x)) (combine xs vs)) 0
+                 (dsum (fun x => alpha * exp (alpha * x)) (combine xs vs))).
+  { apply is_derive_lsum. intros p _. auto_derive; [exact I | ring]. }
+  assert (N0 : lsum (fun x => x * exp (alpha * x)) (combine xs vs) 0 = N)
+    by (rewrite lsum_0, map_fst_combine by exact Hl; reflexivity).
+  assert (D0 : lsum (fun x => exp (alpha * x)) (combine xs vs) 0 = D)
+    by (rewrite lsum_0, map_fst_combine by exact Hl; reflexivity).
+  pose proof (is_derive_div _ _ 0 _ _ HN' HD' ltac:(rewrite D0; lra)) as Hd.
+  rewrite N0, D0 in Hd.
+  replace (rdot (softmm_grad alpha xs) vs)
+    with ((dsum (fun x => exp (alpha * x) + x * (alpha * exp (alpha * x))) (combine xs vs) * D
+           - N * dsum (fun x => alpha * exp (alpha * x)) (combine xs vs)) / (D * D)).
+  { replace (D * D) with (D ^ 2) by ring. exact Hd. }
+  rewrite !dsum_dot by exact Hl. unfold softmm_grad, softmm. fold N. fold D.
+  (* linear algebra on the three weighted sums  A = sum e_i v_i,  B = sum x_i e_i v_i *)
+  set (e := map (fun x => exp (alpha * x)) xs).
+  set (xe := map (fun x => x * exp (alpha * x)) xs).
+  assert (E1 : rdot (map (fun x => exp (alpha * x) + x * (alpha * exp (alpha * x))) xs) vs
+               = rdot e vs + alpha * rdot xe vs).
+  { unfold e, xe, rdot. clear -Hl. revert vs Hl. induction xs as [|x xs IH]; intros [|v vs] Hl; cbn in *; try discriminate; [ring|].
+    rewrite IH by (injection Hl; auto). ring. }
+  assert (E2 : rdot (map (fun x => alpha * exp (alpha * x)) xs) vs = alpha * rdot e vs).
+  { unfold e, rdot. clear -Hl. revert vs Hl. induction xs as [|x xs IH]; intros [|v vs] Hl; cbn in *; try discriminate; [ring|].
+    rewrite IH by (injection Hl; auto). ring. }
+  assert (E3 : rdot (map (fun x => exp (alpha * x) / D * (1 + alpha * (x - N / D))) xs) vs
+               = / D * ((1 - alpha * (N / D)) * rdot e vs + alpha * rdot xe vs)).
+  { unfold e, xe. apply rdot_soft; [exact Hl | lra]. }
+  rewrite E1, E2, E3. field. lra.
+Qed.
+
+(* ------------------------------------------------------------------ the Aggregation wrapper *)
+(* response sf * f(x), sensitivity sf * dfdy * grad f: the seeded derivative along any direction *)
+Theorem agg_wrapper_derive sf dfdy (f : list R -> R) (g : list R) xs vs :
+  is_derive (fun t => f (line xs vs t)) 0 (rdot g vs) ->
+  is_derive (fun t => dfdy * agg_resp sf f (line xs vs t)) 0 (rdot (agg_sens sf dfdy g) vs).
+Proof.
+  intros H. unfold agg_resp, agg_sens.
+  pose proof (is_derive_scal _ 0 (dfdy * sf) _ H) as Hd.
+  rewrite rdot_map_scale.
+  apply (is_derive_ext (fun t => dfdy * sf * f (line xs vs t))); [intros t; apply Rmult_assoc|].
+  replace (sf * dfdy * rdot g vs) with (dfdy * sf * rdot g vs) by ring. exact Hd.
+Qed.
+
+(* ------------------------------------------------------------------ complex norm (one entry) *)
+(* d/dt |z + t v| at 0 along v = va + i vb equals Re(g v) with g = dA conj(z)/A, for dA = 1:
+   Re((a - i b)(va + i vb))/A = (a va + b vb)/A *)
+Theorem cnorm_derive a b va vb dA : a * a + b * b <> 0 ->
+  is_derive (fun t => dA * cnorm (a + t * va) (b + t * vb)) 0
+            (cnorm_sens_re dA a b * va - cnorm_sens_im dA a b * vb).
+Proof.
+  intros Hz. unfold cnorm, cnorm_sens_re, cnorm_sens_im, cnorm.
+  assert (Hp : 0 < a * a + b * b) by nra.
+  auto_derive.
+  - replace ((a + 0 * va) * (a + 0 * va) + (b + 0 * vb) * (b + 0 * vb)) with (a * a + b * b) by ring. exact Hp.
+  - replace ((a + 0 * va) * (a + 0 * va) + (b + 0 * vb) * (b + 0 * vb)) with (a * a + b * b) by ring.
+    assert (Hs : sqrt (a * a + b * b) <> 0) by (apply Rgt_not_eq, sqrt_lt_R0; exact Hp).
+    field. exact Hs.
+Qed.
+
+(* ------------------------------------------------------------------ Scaling with frozen factor *)
+Theorem scaling_derive mode sf lim x v dy : lim <> 0 ->
+  is_derive (fun t => dy * scaling_resp mode sf lim (x + t * v)) 0 (scaling_sens mode sf lim dy * v).
+Proof.
+  intros Hl. destruct mode as [|[|m]]; unfold scaling_resp, scaling_sens; auto_derive; try exact I; try (field; exact Hl).
+  all: try (repeat split; auto).
 Qed.
